@@ -225,7 +225,10 @@ CLAIMED = {
              "kernel-checked counterexample and recorded as a known finding (shutdown/close flush the whole queue). Runtime conjunct: "
              "~12 000 hostile packets per quick run (boundary seq/ack, any flags/window/options incl. scale 0..255) in every state under "
              "ASan/UBSan with whole-state comparison; five genuine assertion/UB defects found this way were fixed in /repo. A hand-made "
-             "peer whose every ACK we build gives the advertised window independently of the socket's belief (W16 << advertised scale).",
+             "peer whose every ACK we build gives the advertised window independently of the socket's belief (W16 << advertised scale). "
+             "The FIN / FIN-ACK state predicates and the ring's buffered/room accessors are REGENERATED from agent/pseudotcp.c on every "
+             "run and the model's versions are proved equal to them for every state and ring (Props/C10Kernels), together with "
+             "'FIN-ACK seen implies both FINs' for every 32-bit state value and 'buffered + room = capacity' under the ring invariant.",
         note="Trusted: Lean kernel, PTcp model + ptcp_drv, sanitizers for the compiled C.",
         technique="Lean 4 proof of no-op/no-fault/bounds invariants over all inputs + hostile-packet differential correspondence",
         design="5/C10"),
